@@ -27,6 +27,7 @@ type Config struct {
 	Trace      bool
 	Only       string
 	Verbose    bool
+	ViolCap    int
 }
 
 type ObsVal struct {
@@ -72,6 +73,7 @@ type ViolationCase struct {
 	Msg   string
 	Case  ReplayCase
 	Key   string
+	NoModel bool
 }
 
 type HarnessStats struct {
@@ -215,6 +217,10 @@ func (in *Interp) runPath(h *ssa.Function, prefix []Decision, sample bool) (res 
 			}
 		}
 		for _, v := range in.violations {
+			if v.Model == nil {
+				res.Violations = append(res.Violations, ViolationCase{Label: v.Label, Kind: v.Kind, Msg: v.Msg, NoModel: true, Case: ReplayCase{Harness: h.Name(), Tags: append([]string(nil), in.tags...)}})
+				continue
+			}
 			rc := in.buildCase(h.Name(), v.Model)
 			rc.ExpectFail = []string{v.Label}
 			res.Violations = append(res.Violations, ViolationCase{Label: v.Label, Kind: v.Kind, Msg: v.Msg, Case: rc})
@@ -231,8 +237,12 @@ func (in *Interp) runPath(h *ssa.Function, prefix []Decision, sample bool) (res 
 				res.Outcome = "panic"
 				res.Panic = &e
 				// a panic of the code under test is a violation of the harness's property
-				if m, ok := in.model(); ok {
-					in.violations = append(in.violations, Violation{Label: "panic@" + e.fn, Model: m, Kind: "panic", Msg: e.msg + " at " + e.pos})
+				plabel := "panic@" + e.fn
+				in.violCount[plabel]++
+				if in.violCount[plabel] > in.cfg.ViolCap {
+					in.violations = append(in.violations, Violation{Label: plabel, Model: nil, Kind: "panic", Msg: e.msg + " at " + e.pos})
+				} else if m, ok := in.model(); ok {
+					in.violations = append(in.violations, Violation{Label: plabel, Model: m, Kind: "panic", Msg: e.msg + " at " + e.pos})
 				} else {
 					res.Outcome = "abort"
 					res.AbortWhy = "panic on path without model"
@@ -362,7 +372,7 @@ func Explore(ld *Loaded, cfg *Config) *RunResult {
 					return
 				}
 				defer sv.Close()
-				in := &Interp{prog: ld.prog, ld: ld, tt: tt, solver: sv, cfg: cfg, maxSteps: cfg.MaxSteps, qcache: map[string]string{}, varCache: map[int][]int{}, varIDs: map[string]int{}}
+				in := &Interp{prog: ld.prog, ld: ld, tt: tt, solver: sv, cfg: cfg, maxSteps: cfg.MaxSteps, qcache: map[string]string{}, violCount: map[string]int{}, varCache: map[int][]int{}, varIDs: map[string]int{}}
 				for {
 					mu.Lock()
 					for len(work) == 0 && active > 0 && !stop {
